@@ -191,11 +191,18 @@ def configs(tier):
             for ax in (0, 2):
                 cfg.append([cell, pbc, 2, ax, "inf", 3, 900])
     else:
-        for cell in ("ortho", "tricl", "pyth", "rot", "plate"):
-            for pbc in ("TFF", "FTF", "FFT", "TTF", "TFT", "FTT", "TTT", "FFF"):
+        # every pbc combination on the orthogonal cell with three cutoff windows; the sheared cells with the windows that finish
+        # (tricl/pyth TTT with cutoff up to 3 ran past 45 min per configuration and are outside)
+        for pbc in ("TFF", "FTF", "FFT", "TTF", "TFT", "FTT", "TTT", "FFF"):
+            for ax in (0, 1, 2):
+                for lo, hi in (((1, 2), 1), ((1, 1), 2), ((2, 1), 3)):
+                    cfg.append(["ortho", pbc, 2, ax, hi, 3, 3000, lo[0], lo[1]])
+            cfg.append(["ortho", pbc, 2, 0, "inf", 3, 3000])
+        for cell in ("tricl", "pyth", "rot", "plate"):
+            for pbc in ("TFF", "FTF", "FFT", "TTF", "FFF"):
                 for ax in (0, 1, 2):
-                    cfg.append([cell, pbc, 2, ax, 3, 3, 3000, 1, 2])
-                cfg.append([cell, pbc, 2, 0, "inf", 3, 3000])
+                    cfg.append([cell, pbc, 2, ax, 2, 3, 3000, 1, 1])
+            cfg.append([cell, "TTF", 2, 0, "inf", 3, 3000])
         for ax in (0, 1, 2):
             cfg.append(["ortho", "TFF", 3, ax, 2, 3, 3000, 1, 1])
     return cfg
@@ -235,7 +242,7 @@ def main(tier, seed, only=None):
     if not only:
         rep.require_reached("H10a:finite", "H10b", "H10c")
     rep.bounds = {"H10a": "2 atoms inside the cell (3 along one axis, thorough), one symbolic fractional coordinate per atom (each axis in turn, the others from a fixed grid), "
-                          "symbolic cutoff in [1,2] quick / [1/2,3] thorough and +inf; cells " + ("ortho, tricl (+pyth for inf)" if tier == "quick" else "ortho, tricl, pyth, rot, plate") + "; oracle box |n|<=3",
+                          "symbolic cutoff in [1,2] quick; thorough: [1/2,1], [1,2], [2,3] on the orthogonal cell with all 8 pbc, [1,2] on the other cells with <= 2 periodic axes; and +inf; cells " + ("ortho, tricl (+pyth for inf)" if tier == "quick" else "ortho, tricl, pyth, rot, plate") + "; oracle box |n|<=3",
                   "H10b": "wrapper: 6 pbc forms x cell given/None x cutoff symbolic/None/inf x 4 flag combinations", "H10c": "get_distances on 2 atoms, symbolic distances and radii"}
     rep.stubs = ["pybind11 stand-in header (arrays with bounds-checked accessors)", "SymD: fraction of z3 reals with lazy square roots; integers concretised by candidate enumeration",
                  "matid.ext replaced by a recorder in H10b; get_displacement_tensor by a recorder in H10c"]
